@@ -230,6 +230,123 @@ def params_of(c):
     return out
 
 
+# ------------------------------------------------------------------ how a sampled parameter is written
+# c["reps"][id] describes the object the operators (and the target) see under `id`:
+#   absent / {"rep": "plain"}                       a Parameter
+#   {"rep": "slice", "pre": [...], "post": [...]}    ViewParameter "a:b" of the Parameter id.base = pre + values + post
+#   {"rep": "strided", "step": k, "fill": [...]}     ViewParameter "0:n*k:k" of id.base (values interleaved with fill)
+#   {"rep": "neg", "pre": [...], "post": [...]}      ViewParameter "b:a:-1" (an index-list view) of id.base = pre + reversed values + post
+#   {"rep": "cat", "cut": k}                         CatParameter of the Parameters id.p0 = values[:k], id.p1 = values[k:]
+#   {"rep": "exp"}                                   TransformedParameter exp of the Parameter id.log (the target is a density in
+#                                                    the transformed variable: no Jacobian term, so that a scaler's -log s applies)
+# The chain state is the list of underlying Parameters (bases), including the part of a base no view covers.
+REP_CLASS = {"plain": "plain", "slice": "slice_view", "strided": "slice_view", "neg": "index_view", "cat": "cat", "exp": "transformed"}
+
+
+def rep_of(c, i):
+    return (c.get("reps") or {}).get(i) or {"rep": "plain"}
+
+
+def layout(c):
+    """-> (bases: [(base id, initial values)], derived: [JSON of the non-plain objects], cover: {base id: (param id, covered index list)})"""
+    bases, derived, cover = [], [], {}
+    for i, kind, v in params_of(c):
+        v = [float(x) for x in v]
+        n = len(v)
+        r = rep_of(c, i)
+        k = r["rep"]
+        if k == "plain":
+            bases.append((i, v))
+            cover[i] = (i, list(range(n)))
+        elif k == "slice":
+            a = len(r["pre"])
+            bases.append((i + ".base", list(r["pre"]) + v + list(r["post"])))
+            derived.append({"id": i, "type": "ViewParameter", "parameter": i + ".base", "indices": "%d:%d" % (a, a + n)})
+            cover[i + ".base"] = (i, list(range(a, a + n)))
+        elif k == "strided":
+            st_ = r["step"]
+            base = []
+            for j, x in enumerate(v):
+                base += [x] + [r["fill"][(j * (st_ - 1) + t) % len(r["fill"])] for t in range(st_ - 1)]
+            bases.append((i + ".base", base))
+            derived.append({"id": i, "type": "ViewParameter", "parameter": i + ".base", "indices": "0:%d:%d" % (n * st_, st_)})
+            cover[i + ".base"] = (i, list(range(0, n * st_, st_)))
+        elif k == "neg":
+            a = len(r["pre"])
+            bases.append((i + ".base", list(r["pre"]) + v[::-1] + list(r["post"])))
+            derived.append({"id": i, "type": "ViewParameter", "parameter": i + ".base", "indices": "%d:%d:-1" % (a + n - 1, a - 1)})
+            cover[i + ".base"] = (i, list(range(a + n - 1, a - 1, -1)))
+        elif k == "cat":
+            cut = r["cut"]
+            bases.append((i + ".p0", v[:cut]))
+            bases.append((i + ".p1", v[cut:]))
+            derived.append({"id": i, "type": "CatParameter", "parameters": [i + ".p0", i + ".p1"], "dim": -1})
+            cover[i + ".p0"] = (i, list(range(cut)))
+            cover[i + ".p1"] = (i, list(range(n - cut)))
+        elif k == "exp":
+            bases.append((i + ".log", [math.log(x) for x in v]))
+            derived.append({"id": i, "type": "TransformedParameter", "transform": "torch.distributions.ExpTransform", "x": i + ".log"})
+            cover[i + ".log"] = (i, list(range(n)))
+        else:
+            raise HarnessError("unknown representation %r" % (k,))
+    return bases, derived, cover
+
+
+def initial_state(c):
+    return {b: list(v) for b, v in layout(c)[0]}
+
+
+def resolve(c, state):
+    """values of the sampled parameters as the operators see them (id -> list), from the values of the bases"""
+    out = {}
+    for i, kind, v in params_of(c):
+        n = len(v)
+        r = rep_of(c, i)
+        k = r["rep"]
+        if k == "plain":
+            out[i] = list(state[i])
+        elif k == "slice":
+            a = len(r["pre"])
+            out[i] = list(state[i + ".base"][a:a + n])
+        elif k == "strided":
+            out[i] = list(state[i + ".base"][0:n * r["step"]:r["step"]])
+        elif k == "neg":
+            a = len(r["pre"])
+            out[i] = list(state[i + ".base"][a:a + n][::-1])
+        elif k == "cat":
+            out[i] = list(state[i + ".p0"]) + list(state[i + ".p1"])
+        else:
+            out[i] = [math.exp(x) if x < 700 else float("inf") for x in state[i + ".log"]]
+    return out
+
+
+@st.composite
+def representations(draw, c):
+    reps = {}
+    for i, kind, v in params_of(c):
+        n = len(v)
+        choices = ["plain", "plain", "plain", "slice", "strided", "neg"]
+        if n >= 2:
+            choices.append("cat")
+        if kind == "positive":
+            choices.append("exp")
+        k = draw(st.sampled_from(choices))
+        fillv = fl(0.5, 9.0) if kind != "real" else fl(-9.0, 9.0)
+        if k == "slice":
+            reps[i] = {"rep": k, "pre": [draw(fillv) for _ in range(draw(st.integers(0, 2)))], "post": [draw(fillv) for _ in range(draw(st.integers(0, 2)))]}
+            if not reps[i]["pre"] and not reps[i]["post"]:
+                reps[i]["post"] = [7.0]
+        elif k == "strided":
+            reps[i] = {"rep": k, "step": draw(st.integers(2, 3)), "fill": [draw(fillv) for _ in range(2)]}
+        elif k == "neg":
+            reps[i] = {"rep": k, "pre": [draw(fillv) for _ in range(draw(st.integers(1, 2)))], "post": [draw(fillv) for _ in range(draw(st.integers(0, 2)))]}
+        elif k == "cat":
+            reps[i] = {"rep": k, "cut": draw(st.integers(1, n - 1))}
+        elif k == "exp":
+            reps[i] = {"rep": k}
+    return reps
+
+
 @st.composite
 def op_common(draw, kind):
     return {"type": kind, "weight": draw(logu(0.2, 5.0)), "target_acc": draw(fl(0.1, 0.9)), "adapt": draw(st.sampled_from([True, True, True, False]))}
@@ -256,7 +373,10 @@ def operators(draw, c):
         avail.append("sliding")
     if sim:
         avail += ["dirichlet"]
-    if c["target"] == "toy":
+    # HMCOperator needs parameter.grad / a requires_grad setter: Parameter only (views, concatenations and transformed
+    # parameters raise AttributeError on HEAD), so it is attached to plainly written parameters
+    plain_hmc = [i for i in real + pos if rep_of(c, i)["rep"] == "plain"]
+    if c["target"] == "toy" and plain_hmc:
         avail += ["hmc"]
     if c["target"] == "skygrid":
         avail += ["block", "block"]
@@ -288,7 +408,7 @@ def operators(draw, c):
         else:
             # unconstrained parameters, and positive ones sampled without a transform: a trajectory that leaves
             # the support raises inside the operator (argument validation / NaN potential) and is retried
-            o["params"] = draw(subset(real + pos))
+            o["params"] = draw(subset(plain_hmc))
             d = sum(size[i] for i in o["params"])
             o["tuning"] = draw(logu(1e-3, 0.3)) if all(i in real for i in o["params"]) else draw(logu(1e-2, 1.5))
             o["steps"] = draw(st.integers(1, 8))
@@ -318,6 +438,9 @@ def cases(draw, targets=("toy", "toy", "toy", "skygrid", "skygrid", "phylo"), ma
         c.update(draw(skygrid_target()))
     else:
         c["phylo"] = draw(phylo_target())
+    reps = draw(representations(c))
+    if reps:
+        c["reps"] = reps
     c["ops"] = draw(operators(c))
     nlog = draw(st.integers(1, 2))
     c["loggers"] = [{"kind": draw(st.sampled_from(["file", "file", "container"])), "every": draw(st.sampled_from([1, 1, 2, 3, 7])),
@@ -334,8 +457,8 @@ def _dist(id_, name, x, **params):
 def target_spec(c, state):
     """JSON of the target with the sampled parameters at `state` (id -> list of values).
     All sampled parameters come first as top-level elements; the last element is the joint."""
-    ids = [i for i, _, _ in params_of(c)]
-    out = [tt.P(i, [float(v) for v in state[i]]) for i in ids]
+    bases, derived, _ = layout(c)
+    out = [tt.P(b, [float(v) for v in state[b]]) for b, _ in bases] + derived
     t = c["target"]
     if t == "toy":
         dists = []
@@ -417,7 +540,7 @@ def op_spec(c, o, sizes):
 
 
 def mcmc_spec(c, tmp, containers):
-    ids = [i for i, _, _ in params_of(c)]
+    ids = [b for b, _ in layout(c)[0]]
     sizes = {i: len(v) for i, _, v in params_of(c)}
     loggers = []
     for j, lg in enumerate(c["loggers"]):
@@ -736,18 +859,28 @@ def _draws(r, name, fn=None):
 def hastings_oracle(c, o, op, r):
     """-> (H or None when nothing can be asserted, problem string or None, info dict)"""
     kind = o["type"]
-    before, prop = r["before"], r["proposed"]
-    changed = diff_ids(before, prop)
     info = {}
-    if any(i not in o["params"] for i in changed):
-        return None, "proposal_changed_foreign_parameter", {"changed": changed}
+    _, _, cover = layout(c)
+    sb, sp = to_state(r["before"]), to_state(r["proposed"])
+    # the proposal may only touch what the operator was given: its parameters, and of a base only the part its view covers
+    for b in diff_ids(r["before"], r["proposed"]):
+        owner, idx = cover[b]
+        if owner not in o["params"]:
+            return None, "proposal_changed_foreign_parameter", {"changed": b}
+        outside = [j for j in range(len(sb[b])) if j not in idx and (j >= len(sp[b]) or sb[b][j] != sp[b][j])]
+        if outside or len(sb[b]) != len(sp[b]):
+            return None, "proposal_changed_outside_view", {"base": b, "positions": outside, "before": sb[b], "proposed": sp[b]}
+    vb, vp = resolve(c, sb), resolve(c, sp)
+    before = {i: np.asarray(vb[i], float) for i in o["params"]}
+    prop = {i: np.asarray(vp[i], float) for i in o["params"]}
+    loose = {i: rep_of(c, i)["rep"] == "exp" for i in o["params"]}  # values pass through exp(log(.)): equal up to rounding
     if kind in ("scaler", "sliding"):
         us = _draws(r, "rand", "_step")
         # exactly one element of one parameter moves
         moved = []
         for i in o["params"]:
-            a, b = _np(before[i]), _np(prop[i])
-            for j in np.nonzero(a != b)[0]:
+            a, b = before[i], prop[i]
+            for j in np.nonzero(np.abs(a - b) > 1e-13 * np.abs(a) if loose[i] else a != b)[0]:
                 moved.append((i, int(j), a[j], b[j]))
         if len(moved) > 1:
             return None, "proposal_form", {"moved": [(i, j) for i, j, _, _ in moved]}
@@ -762,7 +895,7 @@ def hastings_oracle(c, o, op, r):
                 i, j, a, b = moved[0]
                 if not close(b, a * s, 1e-12):
                     return None, "proposal_form", {"old": a, "new": b, "expected_factor": s, "observed_factor": b / a if a else None}
-            elif s != 1.0 and not all(_np(before[i]).size == 0 for i in o["params"]):
+            elif s != 1.0 and not all(before[i].size == 0 for i in o["params"]):
                 # s * x == x can only happen by rounding
                 if abs(s - 1.0) > 1e-15:
                     return None, "proposal_form", {"moved": [], "factor": s}
@@ -776,24 +909,24 @@ def hastings_oracle(c, o, op, r):
         return 0.0, None, info
     if kind == "dirichlet":
         i = o["params"][0]
-        x, y = _np(before[i]), _np(prop[i])
+        x, y = before[i], prop[i]
         cc_ = r["tp"]
         H = _dir_logpdf(x, cc_ * y) - _dir_logpdf(y, cc_ * x)
         # the proposal is a draw from Dirichlet(c x): same generator state, same draw
         st0 = torch.get_rng_state()
         try:
             torch.set_rng_state(r["rng"])
-            redraw = torch.distributions.Dirichlet(before[i] * cc_).sample()
+            redraw = torch.distributions.Dirichlet(tt.T(x.tolist()) * cc_).sample()
         finally:
             torch.set_rng_state(st0)
-        if not torch.allclose(redraw, prop[i], rtol=1e-12, atol=0.0):
+        if not torch.allclose(redraw, tt.T(y.tolist()), rtol=1e-12, atol=0.0):
             return H, "proposal_form", {"proposed": y.tolist(), "draw_from_Dirichlet(c*x)": _np(redraw).tolist()}
         if abs(y.sum() - 1.0) > 1e-9 or np.any(y < 0):
             return H, "proposal_form", {"proposed": y.tolist(), "not_on_simplex": True}
         return H, None, info
     if kind == "block":
-        g0, g1 = _np(before["theta.log"]), _np(prop["theta.log"])
-        t0, t1 = float(_np(before["tau"])[0]), float(_np(prop["tau"])[0])
+        g0, g1 = before["theta.log"], prop["theta.log"]
+        t0, t1 = float(before["tau"][0]), float(prop["tau"][0])
         A = r["tp"]
         # precision: factor f with density prop. to 1 + 1/f on [1/A, A] (symmetric: contributes 0)
         us = [float(x.reshape(-1)[0]) for x in _draws(r, "rand", "propose_precision")]
@@ -839,7 +972,7 @@ def hastings_oracle(c, o, op, r):
         return None, "proposal_form", {"momenta": 0}
     ids = o["params"]
     p0 = _np(r["momenta"][-1])
-    state = to_state(before)
+    state = vb  # HMC parameters are plainly written (id = base id); the others enter the gradient through their values
     sizes = [len(state[i]) for i in ids]
     q0 = np.concatenate([np.asarray(state[i], float) for i in ids])
     mass = np.asarray(o["mass"], float)
@@ -872,7 +1005,7 @@ def hastings_oracle(c, o, op, r):
     info.update(amplification=amp)
     if not base["finite"] or not amp < 1e3 or base["scale"] > 1e4:
         return None, None, dict(info, unguarded=True)
-    q1 = np.concatenate([_np(prop[i]) for i in ids])
+    q1 = np.concatenate([prop[i] for i in ids])
     S = base["scale"]
     if q1.shape != base["q"].shape or not np.all(np.abs(q1 - base["q"]) <= 1e-9 * S * max(1.0, amp)):
         return None, "proposal_form", {"proposed": q1.tolist(), "reference_leapfrog": base["q"].tolist(), "momentum": p0.tolist()}
@@ -910,7 +1043,7 @@ def bold_sign(kind):
     for tp in (lo, hi):
         o = {"type": kind, "id": "op0", "params": par, "weight": 1.0, "target_acc": 0.3, "adapt": False, "tuning": tp, "steps": 3, "mass": [1.0] * 3, "adaptor": "none"}
         cc_ = dict(c, ops=[o])
-        state = {i: v for i, _, v in params_of(cc_)}
+        state = initial_state(cc_)
         tmp = tempfile.mkdtemp(prefix="c15m-")
         try:
             dic, mc = build_all(cc_, state, tmp, [])
@@ -959,17 +1092,21 @@ def _tags(c):
 
 
 def _body(c, tmp):
-    ps = params_of(c)
-    ids = [i for i, _, _ in ps]
-    state0 = {i: list(v) for i, _, v in ps}
+    state0 = initial_state(c)
+    ids = list(state0)
+    _, _, cover = layout(c)
     containers = [[] for _ in c["loggers"]]
     dic, mc = build_all(c, state0, tmp, containers)
     res = Res(nontrivial=False, key=None, tags=_tags(c))
     labels = {}
     reported = set()
 
+    current = {"rep": None}  # how the parameters of the operator of the current transition are written
+
     def fail(kind, detail, cls=None, **tags):
-        key = (kind, cls, tuple(sorted(tags.items())))
+        if current["rep"] is not None:
+            tags["rep"] = current["rep"]
+        key = (kind, cls, repr(sorted(tags.items())))
         if key in reported:
             return
         reported.add(key)
@@ -986,7 +1123,7 @@ def _body(c, tmp):
         return cache[k]
 
     if c["target"] == "toy":
-        ref = toy_logp(c, state0)
+        ref = toy_logp(c, resolve(c, state0))
         got = fresh(state0)
         if not close(got, ref, 1e-9):
             raise HarnessError("C15: toy specification and its closed form disagree: %r vs %r" % (got, ref))
@@ -1035,6 +1172,8 @@ def _body(c, tmp):
         cls = r["cls"]
         used_types.add(cls)
         where = {"iteration": r["epoch"], "operator": o["id"]}
+        current["rep"] = sorted(set(REP_CLASS[rep_of(c, i)["rep"]] for i in o["params"]))
+        labels["transition_on:" + "+".join(current["rep"])] = labels.get("transition_on:" + "+".join(current["rep"]), 0) + 1
         if not same(cur, r["before"]):
             fail("state_changed_between_iterations", dict(where, changed=diff_ids(cur, r["before"])), cls)
         if len(r["decisions"]) != 1:
@@ -1141,7 +1280,7 @@ def _body(c, tmp):
             if not same(after, r["before"]):
                 ch = diff_ids(after, r["before"])
                 fail("reject_not_restored", dict(where, changed=ch, before=rnd({i: s_before[i] for i in ch}), after=rnd({i: to_state(after)[i] for i in ch})), cls,
-                     position=(["first" if i == o["params"][0] else "later" for i in ch if i in o["params"]] or ["foreign"])[0])
+                     position=(["first" if cover[i][0] == o["params"][0] else "later" for i in ch if cover[i][0] in o["params"]] or ["foreign"])[0])
         if "end" in r and not same(r["end"], after):
             fail("state_changed_after_decision", dict(where, changed=diff_ids(r["end"], after)), cls)
         # ---- (f) tuning
@@ -1168,6 +1307,7 @@ def _body(c, tmp):
                                                 bolder_when_tuning_parameter="grows" if signs[o["type"]] > 0 else "shrinks"), cls, side=side, **extra)
         cur = r.get("end", after)
         state_at[r["epoch"]] = after
+    current["rep"] = None
     if R.cur is not None and exc is None:
         fail("incomplete_iteration", {"iteration": R.cur.get("epoch")}, R.cur.get("cls"))
     if exc is None and len(trace) != c["iterations"]:
